@@ -16,6 +16,7 @@ Definition zbyte (z : Z) : byte := byte_of_N (Z.to_N z).
 
 Definition two52 : Z := 4503599627370496.
 Definition two63 : Z := 9223372036854775808.
+Definition two64 : Z := 18446744073709551616.
 Definition inf_bits : Z := 0x7FF0000000000000.
 
 (* ---------- exact rounding of a positive rational to binary64 (round to nearest, ties to even) ----------
@@ -325,7 +326,14 @@ Definition number_to_json (bits : N) : option bytes :=
     | None => None
     | Some (digs, n) =>
       let fmt_f := (babs <? bits_1e21) && (bits_1em6 <=? babs) in
-      Some ((if neg then [x2d] else []) ++ (if fmt_f then layout_f digs n else layout_e digs n))
+      let text := (if neg then [x2d] else []) ++ (if fmt_f then layout_f digs n else layout_e digs n) in
+      (* self-check of the shortest-digit search: the text, read by the model of ParseFloat, is this double
+         (this is what makes the digits "round-trip"; the check never fails in the differential runs, a failure
+         would show up there as an unexpected None) *)
+      match parse_number text with
+      | Some p => if Z.of_N p =? b mod two64 then Some text else None
+      | None => None
+      end
     end.
 
 Example num_ex1 : number_to_json 0x3FD3333333333334%N = Some (bytes_of_string "0.30000000000000004"%string).
